@@ -1,3 +1,233 @@
+import QmiModel.Model.Config
 import Drv.Common
-/-! stub driver for C16: replaced when the model is built -/
-def main : IO Unit := Drv.main' (fun (s : Unit) _ => (s, "bad-op")) ()
+/-!
+Line-protocol driver for the C16 model (configuration loading).
+
+Tokens are separated by single spaces.
+
+values  `N` None | `T`/`F` bool | `I<int>` | `D<repr>` float | `X<int>` float(int) | `S<cp,cp,…>` str |
+        `L<n> v…` list | `U<n> v…` tuple | `M<n> (S<key> v)…` dict | `O<n> S<cls> (S<name> v)…` instance
+types   `i f s b a` | `o τ` | `l τ` | `v τ` (Tuple[τ, ...]) | `t<n> τ…` | `d τ` |
+        `c<n> S<name> (S<field> τ (`-` | `= v`))…`
+ops     `ty τ` (select the type) · `wf` · `parse v` · `ctor v` · `todict v` · `strip S…` · `line S…` ·
+        `hook v` · `dump v`
+-/
+open QmiModel.Config
+
+namespace Drv.C16
+
+def tail (s : String) : String := String.ofList (s.toList.drop 1)
+
+def head? (s : String) : Option Char := s.toList.head?
+
+def pStr (tok : String) : Option Str :=
+  match tok.toList with
+  | 'S' :: rest =>
+    if rest.isEmpty then some []
+    else ((String.ofList rest).splitOn ",").mapM (fun t => t.toNat?)
+  | _ => none
+
+mutual
+partial def pVal : List String → Option (PV × List String)
+  | [] => none
+  | tok :: rest =>
+    match tok.toList with
+    | ['N'] => some (.none, rest)
+    | ['T'] => some (.bool true, rest)
+    | ['F'] => some (.bool false, rest)
+    | 'I' :: ds => (String.ofList ds).toInt?.map (fun n => (.int n, rest))
+    | 'X' :: ds => (String.ofList ds).toInt?.map (fun n => (.fltOfInt n, rest))
+    | 'D' :: ds => if ds.isEmpty then none else some (.flt (ds.map Char.toNat), rest)
+    | 'S' :: _ => (pStr tok).map (fun s => (.str s, rest))
+    | 'L' :: ds => do
+      let n ← (String.ofList ds).toNat?
+      let (xs, r) ← pVals n rest
+      pure (.list xs, r)
+    | 'U' :: ds => do
+      let n ← (String.ofList ds).toNat?
+      let (xs, r) ← pVals n rest
+      pure (.tuple xs, r)
+    | 'M' :: ds => do
+      let n ← (String.ofList ds).toNat?
+      let (kvs, r) ← pPairs n rest
+      pure (.dict kvs, r)
+    | 'O' :: ds => do
+      let n ← (String.ofList ds).toNat?
+      match rest with
+      | nameTok :: rest' =>
+        let name ← pStr nameTok
+        let (kvs, r) ← pPairs n rest'
+        pure (.inst name kvs, r)
+      | [] => none
+    | _ => none
+partial def pVals : Nat → List String → Option (List PV × List String)
+  | 0, r => some ([], r)
+  | n + 1, r => do
+    let (x, r1) ← pVal r
+    let (xs, r2) ← pVals n r1
+    pure (x :: xs, r2)
+partial def pPairs : Nat → List String → Option (List (Str × PV) × List String)
+  | 0, r => some ([], r)
+  | n + 1, r =>
+    match r with
+    | kTok :: r0 => do
+      let k ← pStr kTok
+      let (x, r1) ← pVal r0
+      let (xs, r2) ← pPairs n r1
+      pure ((k, x) :: xs, r2)
+    | [] => none
+end
+
+mutual
+partial def pTy : List String → Option (Ty × List String)
+  | [] => none
+  | tok :: rest =>
+    match tok.toList with
+    | ['i'] => some (.int, rest)
+    | ['f'] => some (.float, rest)
+    | ['s'] => some (.str, rest)
+    | ['b'] => some (.bool, rest)
+    | ['a'] => some (.any, rest)
+    | ['o'] => (pTy rest).map (fun (t, r) => (.opt t, r))
+    | ['l'] => (pTy rest).map (fun (t, r) => (.list t, r))
+    | ['v'] => (pTy rest).map (fun (t, r) => (.tupleVar t, r))
+    | ['d'] => (pTy rest).map (fun (t, r) => (.dict t, r))
+    | 't' :: ds => do
+      let n ← (String.ofList ds).toNat?
+      let (ts, r) ← pTys n rest
+      pure (.tupleFix ts, r)
+    | 'c' :: ds => do
+      let n ← (String.ofList ds).toNat?
+      match rest with
+      | nameTok :: rest' =>
+        let name ← pStr nameTok
+        let (fs, r) ← pFields n rest'
+        pure (.struct name fs, r)
+      | [] => none
+    | _ => none
+partial def pTys : Nat → List String → Option (List Ty × List String)
+  | 0, r => some ([], r)
+  | n + 1, r => do
+    let (t, r1) ← pTy r
+    let (ts, r2) ← pTys n r1
+    pure (t :: ts, r2)
+partial def pFields : Nat → List String → Option (List Field × List String)
+  | 0, r => some ([], r)
+  | n + 1, r =>
+    match r with
+    | fTok :: r0 => do
+      let f ← pStr fTok
+      let (t, r1) ← pTy r0
+      match r1 with
+      | "-" :: r2 =>
+        let (fs, r3) ← pFields n r2
+        pure ((f, t, none) :: fs, r3)
+      | "=" :: r2 =>
+        let (d, r3) ← pVal r2
+        let (fs, r4) ← pFields n r3
+        pure ((f, t, some d) :: fs, r4)
+      | _ => none
+    | [] => none
+end
+
+def encStr (s : Str) : String := "S" ++ ",".intercalate (s.map toString)
+
+mutual
+partial def encVal : PV → String
+  | .none => "N"
+  | .bool true => "T"
+  | .bool false => "F"
+  | .int n => s!"I{n}"
+  | .flt l => "D" ++ String.ofList (l.map Char.ofNat)
+  | .fltOfInt n => s!"X{n}"
+  | .str s => encStr s
+  | .list xs => " ".intercalate (s!"L{xs.length}" :: xs.map encVal)
+  | .tuple xs => " ".intercalate (s!"U{xs.length}" :: xs.map encVal)
+  | .dict kvs => " ".intercalate (s!"M{kvs.length}" :: kvs.map encPair)
+  | .inst c kvs => " ".intercalate (s!"O{kvs.length}" :: encStr c :: kvs.map encPair)
+partial def encPair : Str × PV → String
+  | (k, v) => encStr k ++ " " ++ encVal v
+end
+
+def encItem : PathItem → String
+  | .idx i => s!"i{i}"
+  | .key k => "k" ++ ",".intercalate (k.map toString)
+  | .field f => "f" ++ ",".intercalate (f.map toString)
+
+def encPath (p : Path) : String :=
+  if p.isEmpty then "-" else "/".intercalate (p.map encItem)
+
+def encKind : CfgKind → String
+  | .mismatch => "mismatch"
+  | .missing => "missing"
+  | .unknown => "unknown"
+  | .toplevel => "toplevel"
+
+def encExc : PyExc → String
+  | .config k p => s!"exc:QMI_ConfigurationException {encKind k} {encPath p}"
+  | .typeError => "exc:TypeError"
+  | .overflowError => "exc:OverflowError"
+  | .valueError => "exc:ValueError"
+
+def whole {α : Type} (r : Option (α × List String)) : Option α :=
+  match r with
+  | some (a, []) => some a
+  | _ => none
+
+def stepLine (τ : Ty) (line : String) : Ty × String :=
+  match line.splitOn " " with
+  | "ty" :: rest =>
+    match whole (pTy rest) with
+    | some t => (t, "ok")
+    | none => (τ, "bad-op")
+  | ["wf"] => (τ, toString (wf τ))
+  | "parse" :: rest =>
+    match whole (pVal rest) with
+    | some v =>
+      match parseValue τ v [] with
+      | .ok r =>
+        let d := toDict r
+        let again := match parseValue τ d [] with
+          | .ok r2 => if PV.beq r2 r then "same" else "diff " ++ encVal r2
+          | .error e => encExc e
+        (τ, s!"ok {encVal r} | {encVal d} | {again}")
+      | .error e => (τ, encExc e)
+    | none => (τ, "bad-op")
+  | "ctor" :: rest =>
+    match whole (pVal rest) with
+    | some (.dict kw) =>
+      match construct τ kw with
+      | .ok r => (τ, s!"ok {encVal r}")
+      | .error e => (τ, encExc e)
+    | _ => (τ, "bad-op")
+  | "todict" :: rest =>
+    match whole (pVal rest) with
+    | some v => (τ, encVal (toDict v))
+    | none => (τ, "bad-op")
+  | ["strip", tok] =>
+    match pStr tok with
+    | some s => (τ, encStr (stripComments s))
+    | none => (τ, "bad-op")
+  | ["line", tok] =>
+    match pStr tok with
+    | some s => (τ, encStr (stripLine s))
+    | none => (τ, "bad-op")
+  | "hook" :: rest =>
+    match whole (pVal rest) with
+    | some v =>
+      match loadTree v with
+      | .ok _ => (τ, "ok")
+      | .error e => (τ, encExc e)
+    | none => (τ, "bad-op")
+  | "dump" :: rest =>
+    match whole (pVal rest) with
+    | some v =>
+      match dumpString v with
+      | .ok s => (τ, "ok " ++ encStr s)
+      | .error e => (τ, encExc e)
+    | none => (τ, "bad-op")
+  | _ => (τ, "bad-op")
+
+end Drv.C16
+
+def main : IO Unit := Drv.main' Drv.C16.stepLine Ty.any
